@@ -236,12 +236,23 @@ class TermEngine(Engine):
             return self.opaque_pred(e, env)
         args = [self.ev(a, env, pc) for a in e.args]
         kws = []
+        kw_terms = []
         for k in e.keywords:
             v = self.ev(k.value, env, pc)
-            c = const_repr(v)
-            if c is None:
+            c = const_repr(v) if not is_z3(v) else None
+            if is_z3(v):
+                kw_terms.append((k.arg, v))
+            elif c is None:
                 raise Unsupported("non-constant keyword %s" % k.arg)
-            kws.append("%s=%s" % (k.arg, c))
+            else:
+                kws.append("%s=%s" % (k.arg, c))
+        binder = getattr(self.c, "bind_callee", None)
+        if binder is not None:
+            r = binder(self, name, args, kw_terms, kws)
+            if r is not NotImplemented:
+                return r
+        if kw_terms:
+            raise Unsupported("term-valued keyword argument of %s" % name)
         term_args = []
         consts = []
         for a in args:
